@@ -43,7 +43,7 @@ ASSUMPTIONS = [
     "how long a call that has to wait is delayed is unspecified beyond the window bound and quiescence",
     "arrival order of same-instant callers is the order in which the harness entered the wrapper",
 ]
-MINIMUMS = {"monitor:window": 3000, "bursts_over_limit": 1000, "calls_that_waited": 1000, "monitor:no-needless-delay": 3000, "histories_over_two_event_loops": 300, "histories_with_a_call_time_facade": 100, "histories_with_synchronous_work": 300, "histories_with_arrivals_just_off_a_window_boundary": 1000, "histories_with_timers_just_before_quarter_period_instants": 50, "histories_over_two_alternating_live_loops": 6, "calls_of_callables_with_another_advertised_signature": 2}
+MINIMUMS = {"monitor:window": 3000, "bursts_over_limit": 1000, "calls_that_waited": 1000, "monitor:no-needless-delay": 3000, "histories_over_two_event_loops": 300, "histories_with_a_call_time_facade": 100, "histories_with_synchronous_work": 300, "histories_with_arrivals_just_off_a_window_boundary": 1000, "histories_with_timers_just_before_quarter_period_instants": 50, "histories_over_two_alternating_live_loops": 6, "calls_of_callables_with_another_advertised_signature": 2, "invocations_failing_with_a_builtin_exception_class": 300}
 JOBS = {"quick": 4, "thorough": 16}
 LEVEL_TEXT = (
     "Every arrival pattern of up to 5 calls with gaps from {0, 1/4, 1/2, 1, 5/4, 2} periods is run for limits 1-4 (period as float and as timedelta - sub-second, a day, 36 hours, a week) in exact "
@@ -58,6 +58,21 @@ RANDOM = {"quick": 2500, "thorough": 600_000}
 
 class Boom(Exception):
     pass
+
+
+class TypeBoom(TypeError):
+    """what a function working on a malformed record raises from its own body (`None + 1`)"""
+
+
+class KeyBoom(KeyError):
+    pass
+
+
+class TimeoutBoom(TimeoutError):
+    pass
+
+
+FAILURES = (Boom, TypeBoom, KeyBoom, TypeBoom, TimeoutBoom)  # an invocation that began has used its slot, however it ends
 
 
 def run_case(R: Recorder, case: dict[str, Any], verbose: bool = False) -> None:
@@ -93,7 +108,8 @@ def run_case(R: Recorder, case: dict[str, Any], verbose: bool = False) -> None:
             # synchronous (CPU-bound) work: time passes while the loop cannot run - timers that fall due meanwhile are served late
             clock.advance(busy[i] * q)
         if fails[i]:
-            produced[i] = Boom(i)
+            produced[i] = FAILURES[(i + n + limit) % len(FAILURES)](i)
+            R.count("invocations_failing_with_a_builtin_exception_class", not isinstance(produced[i], Boom))
             raise produced[i]
         produced[i] = ("value", i, object())
         return produced[i]
